@@ -883,7 +883,7 @@ def check_cfi(sc, ls):
             eng.fail("C08 CFI directives after the rewrite do not match the edited listing: module has %s, listing model "
                      "expects %s" % ([(str(p), d[0], d[1]) for p, d in seq],
                                      [(str(p), it.name, it.operands, it.cls) for p, it in exp]),
-                     category="cfi-sequence")
+                     category="cfi-sequence", finding=_cfi_finding(sc))
         # the surviving table must evaluate cleanly: procedures opened and closed exactly once, in order
         depth = 0
         for _, (name, ops, ref) in seq:
@@ -913,6 +913,24 @@ def check_cfi(sc, ls):
                 aid, "inside" if d > 0 else "outside", "inside" if inside else "outside"))
 
 
+def _cfi_finding(sc):
+    """Known-finding id for a CFI sequence difference, or None (see known_findings.json): code inserted at the end of a
+    block whose tail - including the instruction a .cfi_startproc sits on - is deleted or replaced by the same context."""
+    mods = sc.spec.get("mods", [])
+    for a in mods:
+        if a["op"] != "insert":
+            continue
+        n = len(sc.bspec[a["blk"]]["atoms"])
+        if a["at"] != n:
+            continue
+        for b in mods:
+            if b["op"] in ("delete", "replace") and b["blk"] == a["blk"] and b["to"] == n:
+                for c in sc.spec.get("cfi", []):
+                    if c["blk"] == a["blk"] and b["at"] <= c["at"] < n and any(d[0] == ".cfi_startproc" for d in c["dirs"]):
+                        return "C08-insert-at-end-of-block-whose-tail-with-startproc-is-deleted"
+    return None
+
+
 PROP_CHECKS["C08"] = [check_bytes, check_cfi]
 
 
@@ -922,6 +940,8 @@ def make_check_C08(tier):
     chk.install_shims = install
     chk.classify_exception = classify
     for sid, spec in rewrite_shapes.cfi_shapes(tier):
+        if crash_pattern(spec):
+            continue  # apply() dies on these (finding recorded under C01); nothing to evaluate
         chk.add(sid, h_rewrite, params=dict(spec=spec, props=["C08"]), timeout=900)
     chk.bounds = dict(BOUNDS)
     chk.bounds["cfi layouts"] = ("one procedure over three blocks with personality/LSDA, remember/restore and directives at block "
